@@ -44,10 +44,20 @@ type syncRec struct {
 	Init  string `json:"state"` // batch spec applied to the empty state, e.g. "a1 b1 c1 d1"
 	Order string `json:"order"`
 	At    uint32 `json:"height"`
+	// round 3 (ext_alias_test.go)
+	Via     string `json:"via,omitempty"`                   // "" = Billet.RestoreHashNode called by the harness; "module" = statesync.Module.AddMPTNodes (Order = pick:<i.j.k>: which of the hashes asked for is delivered at each step)
+	Stack   string `json:"stack,omitempty"`                 // "" | mem-p | bolt | level
+	Restart int    `json:"restart_after,omitempty"`         // the module is restarted after this delivery
+	Crash   bool   `json:"crash,omitempty"`                 // ... without persisting first
+	Flush   int    `json:"delivery_during_flush,omitempty"` // this delivery is made while the cache layer is being flushed
 }
 
 func (s *syncRec) String() string {
-	return fmt.Sprintf("sync={%s}/%s@%d", s.Init, s.Order, s.At)
+	k := fmt.Sprintf("sync={%s}/%s@%d", s.Init, s.Order, s.At)
+	if s.Via != "" || s.Stack != "" || s.Restart != 0 || s.Flush != 0 {
+		k += fmt.Sprintf("/via=%s/stack=%s/restart=%d/crash=%v/flush=%d", s.Via, s.Stack, s.Restart, s.Crash, s.Flush)
+	}
+	return k
 }
 
 // Simplest first. Leaf "x" under 2 and 4 keys, the branch {1:x,2:x} under two
@@ -161,6 +171,14 @@ func (in *inst) syncStart(rec *syncRec) (kind, detail string) {
 		return "harness-bad-case", "synchronised start needs a non-empty state and a height"
 	}
 	root := util.Uint256(c.root)
+	if rec.Via == "module" {
+		kind, detail, in.syncSizes = in.restoreViaModule(rec, c, root)
+		if kind != "" {
+			return kind, detail
+		}
+		in.st.sx.restores++
+		return in.syncFinish(rec, m, c, root)
+	}
 	dl, err := deliveries(c, rec.Order)
 	if err != nil {
 		return "harness-bad-case", err.Error()
@@ -184,12 +202,28 @@ func (in *inst) syncStart(rec *syncRec) (kind, detail string) {
 		if r.Err != nil {
 			return "harness-bad-case", "canonical node does not decode: " + r.Err.Error()
 		}
+		var before *storeSnap
+		if aliasOracle {
+			before = in.snap()
+		}
 		if err := bl.RestoreHashNode(o.path, no.Node); err != nil {
 			return "billet-restore-error", fmt.Sprintf("delivery %d of %d (node %s, path %x): %v", i+1, len(dl), o.h.short(), o.path, err)
+		}
+		if before != nil {
+			k := string(append([]byte{byte(storage.DataMPT)}, o.h[:]...))
+			if d := in.snap().diff(before, map[string]bool{k: true}, false); d != "" {
+				return "store-record-changed-by-restore", fmt.Sprintf("delivery %d of %d (node %s, path %x): %s", i+1, len(dl), o.h.short(), o.path, d)
+			}
+			in.st.ax.restoreChecked++
 		}
 		in.st.sx.delivered++
 	}
 	in.st.sx.restores++
+	return in.syncFinish(rec, m, c, root)
+}
+
+// syncFinish: the jump to the restored state, persist, oracle.
+func (in *inst) syncFinish(rec *syncRec, m map[string][]byte, c *canon, root util.Uint256) (kind, detail string) {
 	in.synced, in.h0 = true, rec.At
 	in.maps[0], in.canons[0], in.repRoots[0] = m, c, root
 	if in.cfg.Applier == "batch" {
